@@ -59,6 +59,7 @@ class RunInfo:
         storage: str | dict[OUTPUT_TYPE, str],
         cleanup: bool = True,
     ) -> RunInfo:
+        _validate_storage_names(storage)
         run_folder = _maybe_run_folder(run_folder, storage)
         if run_folder is not None:
             if cleanup:
@@ -192,6 +193,12 @@ def _requires_serialization(storage: str | dict[OUTPUT_TYPE, str]) -> bool:
     if isinstance(storage, str):
         return get_storage_class(storage).requires_serialization
     return any(get_storage_class(s).requires_serialization for s in storage.values())
+
+
+def _validate_storage_names(storage: str | dict[OUTPUT_TYPE, str]) -> None:
+    """Resolve every storage identifier before the run folder is touched (raises for an unknown one)."""
+    for name in [storage] if isinstance(storage, str) else storage.values():
+        get_storage_class(name)
 
 
 def _maybe_run_folder(
